@@ -131,6 +131,12 @@ def _ttext(types):
     return "(" + ", ".join(ref.text(ref.describe(t)) for t in types) + ")"
 
 
+SYNTH_VALUES = [
+    "tuple0", "tuple_i", "tuple_TT", "tuple_TN", "tuple_DTG", "tuple_V", "subs_pairs", "fset0", "fset_i", "fset_vars",
+    "fset_vars_mixed", "list", "int", "str", "Tensor_i", "Variable_real", "arr23", "odict",
+]
+
+
 def _op_values(n):
     from funsor.interpretations import lazy
 
@@ -195,6 +201,11 @@ def dinfo(dn, tier):
         for cls, args in w["corpus"]:
             if get_origin(cls) is info["key"]:
                 real.append(args)
+    elif info["kind"] == "synth":
+        V = dict(w["values"])
+        vals = [V[k] for k in SYNTH_VALUES]
+        for args in itertools.product(vals, repeat=arity):
+            real.append(args)
     else:
         vals = [v for _, v in _op_values(cfg["op_value_pool"])]
         for args in itertools.product(vals, repeat=arity):
@@ -434,6 +445,8 @@ def _tcode(d):
     if k == "any":
         return "typing.Any"
     if k == "cls":
+        if d[1] is W.TupleLike:
+            return "TupleLike"
         return "_c(%r, %r)" % (d[1].__module__, d[1].__qualname__)
     if k == "union":
         return "typing.Union[" + ", ".join(_tcode(x) for x in d[1]) + "]"
@@ -455,11 +468,16 @@ def _tcode(d):
     raise ValueError(d)
 
 
-_SNIPPET_HEAD = """import importlib, typing
+_SNIPPET_HEAD = """import abc, importlib, typing
 import funsor
 funsor.set_backend("numpy")
 import funsor.optimizer, funsor.adjoint, funsor.approximations, funsor.montecarlo, funsor.precondition, funsor.elbo, funsor.adam
 from funsor.typing import deep_issubclass, deep_isinstance, deep_type, typing_wrap
+
+class TupleLike(abc.ABC):  # a user ABC that tuple is registered for
+    pass
+
+TupleLike.register(tuple)
 
 def _c(module, qualname):
     if module == "funsor.ops" and not hasattr(importlib.import_module(module), qualname):
@@ -582,7 +600,7 @@ def check_sub(case):
     T, F = m["T"], m["F"]
     n = len(m["types"])
     vios = []
-    counters = {"pairs": 0, "declined_TypeError": 0, "ref_no_opinion": 0, "triples": 0, "wrapped_pairs": 0}
+    counters = {"pairs": 0, "declined_TypeError": 0, "ref_no_opinion": 0, "triples": 0, "wrapped_pairs": 0, "wrapped_conservative_nested_TypeError": 0, "python_abc_relation_not_transitive": 0}
     # reflexivity
     if not T[i, i]:
         vios.append(
@@ -636,6 +654,10 @@ def check_sub(case):
                             "snippet": sub_snippet([(da, db, r)], wrapped=True),
                         }
                     )
+            elif r is True and wv is False and db[0] != "cls" and da[0] in ("tuple", "vtuple", "fset"):
+                # the TypeError came from a NESTED typing construct met by a plain class inside the pattern; the
+                # wrapper then only knows the bare origin of the left type: a conservative False (rule not fired)
+                counters["wrapped_conservative_nested_TypeError"] += 1
             elif r is not None and wv != r:
                 # the unwrapped question raised TypeError; the wrapper retried with the origin of the left type
                 eff = {"tuple": ("tuple*",), "vtuple": ("tuple*",), "fset": ("fset*",)}.get(da[0])
@@ -672,7 +694,10 @@ def check_sub(case):
                     culprit = (x, y, got, r)
                     break
             if culprit is None:
-                culprit = (da, dc, False, None)
+                # all three facts are the structural ones: the ground-truth class relation of Python's ABC hooks is
+                # itself not transitive here (Sized <= Hashable, list <= Sized, list is not Hashable): not funsor's
+                counters["python_abc_relation_not_transitive"] += 1
+                continue
             x, y, got, r = culprit
             vios.append(
                 {
@@ -693,6 +718,41 @@ def check_sub(case):
     return core.ok(key, strict_sup and strict_sub, cls, transitions, counters)
 
 
+def _subterms(v, path="", depth=0):
+    """v and every funsor nested in its arguments (through tuples), with a readable path."""
+    vals = ref.ast_values(v)
+    if vals is not None:
+        yield path, v
+        if depth < 12:
+            for n, a in enumerate(vals):
+                for x in _subterms(a, "%s.%d" % (path, n), depth + 1):
+                    yield x
+    elif isinstance(v, tuple):
+        for n, a in enumerate(v):
+            for x in _subterms(a, "%s.%d" % (path, n), depth + 1):
+                yield x
+
+
+def _precise_type_error(u):
+    """The class of a term must be its origin class parametrised by the deep types of its ACTUAL arguments, and the
+    term must be a member of that class as decided on the argument values."""
+    from funsor.typing import deep_type, get_origin
+
+    tu = type(u)
+    try:
+        expected = get_origin(tu)[tuple(map(deep_type, u._ast_values))]
+    except NotImplementedError:
+        return None
+    if tu is not expected:
+        return "type(t) = %s but its arguments have deep types %s" % (
+            ref.text(ref.describe(tu))[:400],
+            ref.text(ref.describe(expected))[:400],
+        )
+    if ref.member(u, ref.describe(tu)) is False:
+        return "type(t) = %s does not contain t (decided on its argument values)" % ref.text(ref.describe(tu))[:400]
+    return None
+
+
 def check_mem(case):
     from funsor.typing import deep_isinstance, deep_type
 
@@ -702,11 +762,24 @@ def check_mem(case):
     v = dict(w["values"])[label]
     m = matrix()
     vios = []
-    counters = {"memberships": 0, "conservative_imprecise_deep_type": 0, "ref_no_opinion": 0, "isinstance_fallback_TypeError": 0}
+    counters = {"memberships": 0, "conservative_imprecise_deep_type": 0, "ref_no_opinion": 0, "isinstance_fallback_TypeError": 0, "precise_types_recomputed": 0}
     try:
         tv = deep_type(v)
     except NotImplementedError:
         return core.decline(key, "deep_type:NotImplementedError(inhomogeneous frozenset)")
+    for path, u in _subterms(v):
+        counters["precise_types_recomputed"] += 1
+        bad = _precise_type_error(u)
+        if bad is not None:
+            vios.append(
+                {
+                    "site": "reflect",
+                    "features": {"what": "stale-precise-type", "cls": type(u).__mro__[1].__name__ if False else ref._cname(ref._origin_class(u))},
+                    "message": "value %s%s: %s" % (label, path, bad),
+                    "snippet": _SNIPPET_HEAD + "# value %s of fv/props/c16_world.py (sub-term %s)\n" % (label, path or "root"),
+                }
+            )
+            break
     dtv = ref.describe(tv)
     own = ref.member(v, dtv)
     lib_own = deep_isinstance(v, tv)
@@ -808,6 +881,16 @@ def dispatch_snippet(dn, di, types):
         lines.append("registry = owner if hasattr(owner, 'registry') is False else owner.registry")
         lines.append("key = _c(%r, %r)" % (info["key"].__module__, info["key"].__qualname__))
         lines.append("d = registry[key]")
+    elif info["kind"] == "synth":
+        lines.append("from funsor.registry import PartialDispatcher")
+        lines.append("def impl(name):")
+        lines.append("    def f(*args): return name")
+        lines.append("    f.__name__ = name")
+        lines.append("    return f")
+        lines.append("d = PartialDispatcher(impl('default'), 'synthetic')")
+        for (sd, _), (_, fn) in zip(di["sref"], di["sigs"]):
+            if sd[1] is None:
+                lines.append("d.add((%s,), impl(%r))" % (", ".join(_tcode(x) for x in sd[0]), getattr(fn, "__name__", "f")))
     else:
         lines.append("d = _c(%r, %r).dispatcher" % (info["opcls"].__module__, info["opcls"].__qualname__))
     lines.append("types = [%s]" % ", ".join(_tcode(ref.describe(t)) for t in types))
@@ -886,6 +969,22 @@ def check_spec(case, tier):
     return core.ok(key, len(matching) >= 2, cls, len(di["sigs"]), counters)
 
 
+def _values_match(args, sd):
+    fixed, var = sd
+    if var is None:
+        if len(args) != len(fixed):
+            return False
+    elif len(args) < len(fixed):
+        return False
+    for a, s in zip(args, fixed):
+        if ref.member(a, s, conservative=True) is not True:
+            return False
+    for a in args[len(fixed):]:
+        if not any(ref.member(a, alt, conservative=True) is True for alt in var):
+            return False
+    return True
+
+
 def check_real(case, tier):
     """Un-shimmed public entry points on real argument values."""
     dn, k = case[1], case[2]
@@ -916,6 +1015,28 @@ def check_real(case, tier):
             "message": "%s %s: first call %s, second (cached) call %s" % (dn, k, W.fname(f), W.fname(g)),
             "snippet": dispatch_snippet(dn, di, types),
         }
+    # the decision re-made from the argument VALUES (conservative membership) instead of their recorded types
+    if v is None:
+        vmatching = [n for n, (sd, _) in enumerate(di["sref"]) if _values_match(args, sd)]
+        vminimal = [
+            a for a in vmatching
+            if not any(b != a and ref.sig_leq(di["sref"][b][0], di["sref"][a][0]) and not ref.sig_leq(di["sref"][a][0], di["sref"][b][0]) for b in vmatching)
+        ]
+        vok = {di["sref"][n][1] for n in vminimal}
+        if vmatching != matching:
+            counters_extra = {"real_value_and_type_matching_differ": 1}
+        else:
+            counters_extra = {}
+        if (f is None) != (not vmatching) or (f is not None and fkey(f) not in vok):
+            v = {
+                "site": "dispatch:" + dn,
+                "features": {"what": "real", "reason": "not-the-rule-for-the-actual-arguments", "dispatcher": dn, "kind": info["kind"]},
+                "message": "%s %s: chose %s; deciding on the argument values the most specific matching signatures are %s"
+                % (dn, k[:300], W.fname(f), ["%s -> %s" % (W.sig_text(di["sref"][n][0]), W.fname(di["fn_by_id"][di["sref"][n][1]])) for n in vminimal][:6]),
+                "snippet": dispatch_snippet(dn, di, types),
+            }
+    else:
+        counters_extra = {}
     # membership of the real values in the chosen pattern, decided on the values themselves
     if v is None and f is not None:
         chosen_sigs = [di["sref"][i][0] for i in minimal if di["sref"][i][1] == fkey(f)]
@@ -936,7 +1057,7 @@ def check_real(case, tier):
     if v is not None:
         return core.violation(key, v["site"], v["message"], case, v["features"], v["snippet"], transitions=len(di["sigs"]))
     cls = "real:%s:match%d:min%d" % (info["kind"], min(len(matching), 4), min(len(ok_ids), 3))
-    return core.ok(key, len(matching) >= 2, cls, len(di["sigs"]), {"real_ambiguous": int(ambiguous)})
+    return core.ok(key, len(matching) >= 2, cls, len(di["sigs"]), dict(counters_extra, real_ambiguous=int(ambiguous)))
 
 
 def check_hist(case, tier):
